@@ -178,3 +178,5 @@ b("b-msg-only", "C16,C19,C20", [("src/elf/elf.rs", "ELF: Content is larger than 
 b("b-rename-brk", "C13,C19,C20", [("src/helpers/syscalls.rs", "register_brk", "install_brk_hook", True)], "private registering function renamed")
 b("b-rename-pipe", "C14,C19,C20", [("src/helpers/syscalls.rs", "register_pipe", "install_pipe_hooks", True)], "private registering function renamed")
 b("b-rename-stack-impl", "C17,C10", [("src/state/memory.rs", "init_stack_program_start_impl", "build_entry_frame", True)], "private frame builder renamed")
+m("c12-chain-finished", "C12", "src/state/hooks.rs", "if ax.state.finished || res == HookResult::Handled {", "if res == HookResult::Handled {", "C12.iterate", "the hook chain goes on after a hook stopped execution")
+m("c12-chain-unhandled", "C12", "src/state/hooks.rs", "if ax.state.finished || res == HookResult::Handled {", "if ax.state.finished || res == HookResult::Unhandled {", "C12.iterate", "Unhandled ends the chain, Handled continues")
